@@ -22,7 +22,7 @@ EXPLANATION = (
     ' Rounds 7-8: R2 also: next_quick_timer by truth table (both timers, disabled / enabled, midnight included); R3 covers every public getter (identity and wiring getters, model, spill_state by truth table); R6 also: the error-information case of _message_received carries no state guard; R10 every handshake frame is applied to the model before the client reports itself initialised (C09.R1 re-used).'
 )
 ASSUMPTIONS = ["Enum members are compared by identity; dict lookup of a missing key raises KeyError"]
-FLOORS = {"C10.R1": 14, "C10.R2": 10, "C10.R3": 40, "C10.R4": 8, "C10.R5": 6, "C10.R6": 6, "C10.R7": 1, "C10.R8": 1, "C10.R9": 1, "C10.R10": 1}
+FLOORS = {"C10.R1": 14, "C10.R2": 10, "C10.R3": 40, "C10.R4": 8, "C10.R5": 6, "C10.R6": 6, "C10.R7": 1, "C10.R8": 1, "C10.R9": 1, "C10.R10": 1, "C10.R11": 1}
 
 # getter -> how names are translated (None = identity)
 def _selected_mode(n):
@@ -102,6 +102,10 @@ def run(ctx):
     from . import c11
     from .common import reuse
 
+    from . import c15
+
+    reuse(ctx, "C10.R11", [c15.r3], "`initialised` is true only while the model belongs to a live session: shutdown() withdraws it (and closes the state machine) before it first suspends, so no init() returns True for entities that are about to be orphaned (C15.R3)",
+          keep=lambda o: "shutdown:initialised-cleared-first" in o.construct or "shutdown:state-first" in o.construct or "shutdown:clear-" in o.construct or o.verdict != "HOLDS")
     reuse(ctx, "C10.R7", [c11.r2], "the supported-value lists are derived from the latest record on every call (no shared or cached list)")
 
 
@@ -239,6 +243,11 @@ def r2(ctx):
         # blocked in drain), and a store made after an await lets the older frame's handler overwrite the newer record
         early = [n for n in g.nodes if n.awaits and any(g.exists_path(n.id, s.id, labels=NONEXC) for s in stores)]
         ctx.check(not early, R, f"{lab}:stored-before-first-await", m, (early[0].ast if early else stores[0].ast), "nothing is awaited before the new record is stored (the model shows a frame as soon as its handler starts, and an older frame's handler cannot overwrite a newer record)", f"`{norm_text(early[0].ast)[:70]}` (line {early[0].lineno}) can suspend before the store" if early else "")
+        # what is stored is the record the frame carried, as received: the parameter is not rebound (to a copy with fields of the
+        # old record filled in, a smoothed value, ...) before the store
+        dp = f.params[1] if len(f.params) > 1 else None
+        rebound = [s_ for s_ in stores if dp is not None and not f.is_param(dp, s_)]
+        ctx.check(not rebound, R, f"{lab}:stores-the-record-as-received", m, (rebound[0].ast if rebound else stores[0].ast), f"the value stored is the parameter `{dp}` itself (every attribute then reads the most recent frame)", f"`{dp}` is reassigned before the store at line {rebound[0].lineno}: the model shows something other than the frame" if rebound else "")
         # nothing restores the old record afterwards
         attr = a["stores"][0][1]
         later = [n for n, v in f.assigns(f"self.{attr}") if n not in stores]
